@@ -5,6 +5,6 @@ cd "$(dirname "$0")"
 mkdir -p .cache evidence replays
 ( cd coq && coq_makefile -f _CoqProject -o Makefile >/dev/null && timeout 3000 make -j16 )
 export CARGO_NET_OFFLINE=true CARGO_TARGET_DIR="$PWD/.cache/target"
-export RUSTFLAGS="--cfg astrolabe_verif -A unexpected_cfgs -A dead_code -A unused"
+export RUSTFLAGS="-A dead_code -A unused"
 ( cd harness && cargo build --offline -q && cargo build --offline -q --release )
 echo setup ok
